@@ -1,24 +1,254 @@
 /-
 C10 — Replacement policies: LRU evicts the least recently used, PLRU follows its tree.
-Property theorems only; helper lemmas live in `ArchSim/Lemmas/`.
+
+"For every associativity and every history of block accesses within a set, LRU chooses as victim the
+block whose last access is oldest (blocks never accessed first, in index order) and reports block ages
+consistent with that order; PLRU chooses the block reached by following its tree bits from the root,
+and each access sets every bit on the accessed block's path to point away from it. Accessing the same
+block twice in a row leaves the policy state unchanged."
+
+Property theorems only; helper lemmas live in `ArchSim/Lemmas/C10*.lean`, the specification
+vocabulary (`lruRun`, `age`; `PTree`, `absTree`, `victimT`, `accessT`, `pointsAway`, `path`, `PlruWF`,
+`plruRun`) in `ArchSim/Spec/LruAge.lean` and `ArchSim/Spec/PlruTree.lean`, `Pol.WF` in
+`ArchSim/Lemmas/C10Pol.lean`.
 -/
 import ArchSim.Model.Repl
+import ArchSim.Spec.LruAge
+import ArchSim.Spec.PlruTree
+import ArchSim.Lemmas.C10Lru
+import ArchSim.Lemmas.C10Plru
+import ArchSim.Lemmas.C10Pol
 
 namespace ArchSim.Props.C10
-open ArchSim.Repl
+open ArchSim.Repl ArchSim.Spec.Lru ArchSim.Spec.Plru ArchSim.Lemmas.C10
 
-/-- Accessing the same block twice in a row leaves the LRU state unchanged. -/
+/-! ## LRU — every associativity, every finite history of in-range accesses -/
+
+/-- The age key really is "time of the last access, never-accessed ways first in index order":
+    a way that does not occur in the history has key `i`; a way whose last occurrence is at
+    position `t` (it is `h[t]` and occurs nowhere later) has key `assoc + t`. -/
+theorem lru_age_meaning (assoc : Nat) (h : List Nat) (i : Nat) :
+    (i ∉ h → age assoc h i = i) ∧
+    (∀ t, h[t]? = some i → (∀ t', t < t' → h[t']? ≠ some i) → age assoc h i = assoc + t) := by
+  constructor
+  · intro hi; simp [age, lastOcc_eq_none.mpr hi]
+  · intro t h1 h2; simp [age, lastOcc_eq_some.mpr ⟨h1, h2⟩]
+
+/-- The LRU run over any history of in-range ways never raises, and its state is a permutation of
+    `0 … assoc-1`: no duplicates, and `i` is in the list exactly when `i < assoc`. -/
+theorem lru_run_perm (assoc : Nat) (h : List Nat) (hh : ∀ x ∈ h, x < assoc) :
+    ∃ s, lruRun assoc h = some s ∧ s.Perm (List.range assoc) ∧ s.Nodup ∧ s.length = assoc ∧
+      ∀ i, i ∈ s ↔ i < assoc := by
+  obtain ⟨s, hs, hp, _⟩ := lruRun_inv assoc h hh
+  refine ⟨s, hs, hp, hp.nodup_iff.mpr List.nodup_range, by simpa using hp.length_eq, ?_⟩
+  intro i; rw [hp.mem_iff, List.mem_range]
+
+/-- The LRU list is strictly sorted by the age key computed from the history alone
+    (oldest first). -/
+theorem lru_state_sorted_by_age (assoc : Nat) (h s : List Nat) (hh : ∀ x ∈ h, x < assoc)
+    (hs : lruRun assoc h = some s) :
+    s.Pairwise (fun a b => age assoc h a < age assoc h b) := by
+  obtain ⟨s', hs', _, hsort⟩ := lruRun_inv assoc h hh
+  rw [hs] at hs'; cases hs'; exact hsort
+
+/-- LRU's victim is the way whose last access is oldest (never-accessed ways first, in index order):
+    it exists, is a way of the set, minimises the age key, and is the *unique* minimiser. -/
+theorem lru_victim_oldest (assoc : Nat) (h s : List Nat) (ha : 0 < assoc)
+    (hh : ∀ x ∈ h, x < assoc) (hs : lruRun assoc h = some s) :
+    ∃ v, lruVictim s = some v ∧ v < assoc ∧
+      (∀ j, j < assoc → age assoc h v ≤ age assoc h j) ∧
+      (∀ j, j < assoc → j ≠ v → age assoc h v < age assoc h j) := by
+  obtain ⟨s', hs', hp, hsort⟩ := lruRun_inv assoc h hh
+  rw [hs] at hs'; cases hs'
+  obtain ⟨v, h1, h2, _, h4⟩ := head_minimises hp hsort ha
+  refine ⟨v, h1, h2, ?_, h4⟩
+  intro j hj
+  by_cases e : j = v
+  · subst e; exact Nat.le_refl _
+  · exact Nat.le_of_lt (h4 j hj e)
+
+/-- `get_repr` reports ages consistent with that order: the reported list is a permutation of
+    `0 … assoc-1`, way `i` has a smaller reported value than way `j` exactly when `i` is older than
+    `j`, and the victim is reported as `0`. -/
+theorem lru_repr_consistent (assoc : Nat) (h s : List Nat) (hh : ∀ x ∈ h, x < assoc)
+    (hs : lruRun assoc h = some s) :
+    (lruRepr s).Perm (List.range assoc) ∧
+    (∀ i j, i < assoc → j < assoc →
+      ∃ ri rj, (lruRepr s)[i]? = some ri ∧ (lruRepr s)[j]? = some rj ∧
+        (ri < rj ↔ age assoc h i < age assoc h j)) ∧
+    (∀ v, lruVictim s = some v → (lruRepr s)[v]? = some 0) := by
+  obtain ⟨s', hs', hp, hsort⟩ := lruRun_inv assoc h hh
+  rw [hs] at hs'; cases hs'
+  refine ⟨lruRepr_perm hp, fun i j hi hj => lruRepr_consistent hp hsort hi hj, ?_⟩
+  intro v hv
+  cases s with
+  | nil => cases hv
+  | cons w r =>
+    simp only [lruVictim, List.head?_cons, Option.some.injEq] at hv
+    subst hv
+    have hw : w < (w :: r).length := by
+      have : w < assoc := List.mem_range.mp (hp.mem_iff.mp (by simp))
+      rw [hp.length_eq]; simpa using this
+    rw [lruRepr_getElem? _ hw]; simp
+
+/-- Accessing the same block twice in a row leaves the LRU state unchanged
+    (any duplicate-free state, in particular every reachable one). -/
 theorem lru_access_idem (l l' : List Nat) (i : Nat) (hn : l.Nodup) (h : lruAccess l i = some l') :
-    lruAccess l' i = some l' := by
-  unfold lruAccess at h
-  split at h
-  · rename_i hi
-    cases h
-    unfold lruAccess
-    have hni : i ∉ l.erase i := by
-      intro hc
-      exact (List.Nodup.mem_erase_iff hn).mp hc |>.1 rfl
-    simp [List.erase_append_right _ hni]
-  · cases h
+    lruAccess l' i = some l' :=
+  lruAccess_idem hn h
+
+/-- Run form of idempotence: a history ending in `i, i` leaves the same state as the history ending
+    in a single `i`. -/
+theorem lru_access_idem_run (assoc : Nat) (h : List Nat) (i : Nat)
+    (hh : ∀ x ∈ h, x < assoc) (hi : i < assoc) :
+    lruRun assoc (h ++ [i] ++ [i]) = lruRun assoc (h ++ [i]) ∧ (lruRun assoc (h ++ [i])).isSome := by
+  obtain ⟨s, hs, hp, _⟩ := lruRun_inv assoc (h ++ [i]) (by
+    intro x hx
+    rcases List.mem_append.mp hx with hx | hx
+    · exact hh x hx
+    · have : x = i := by simpa using hx
+      exact this ▸ hi)
+  obtain ⟨s0, hs0, hp0, _⟩ := lruRun_inv assoc h hh
+  have hacc : lruAccess s0 i = some s := by simpa [lruRun_snoc, hs0] using hs
+  have := lruAccess_idem (hp0.nodup_iff.mpr List.nodup_range) hacc
+  refine ⟨?_, by simp [hs]⟩
+  rw [lruRun_snoc, hs]; simpa using this
+
+/-- Non-vacuity: a concrete 4-way history with repeats; way 3 is never accessed and is the victim. -/
+example : (∀ x ∈ [2, 0, 2, 1], x < 4) ∧ lruRun 4 [2, 0, 2, 1] = some [3, 0, 2, 1] ∧
+    lruVictim [3, 0, 2, 1] = some 3 ∧ lruRepr [3, 0, 2, 1] = [1, 3, 2, 0] ∧
+    (List.range 4).map (age 4 [2, 0, 2, 1]) = [5, 7, 6, 3] := by decide
+
+example : [3, 0, 2, 1].Nodup ∧ lruAccess [3, 0, 2, 1] 0 = some [3, 2, 1, 0] := by decide
+
+/-! ## PLRU — every depth `d`, associativity `2^d`, every reachable state -/
+
+/-- The constructor's state for associativity `2^d` is well formed; in particular
+    `tree_depth = int(log2(2^d)) = d`. -/
+theorem plru_init_wf (d : Nat) :
+    PlruWF d (plruInit (2 ^ d)) ∧ (plruInit (2 ^ d)).depth = d ∧ log2 (2 ^ d) = d :=
+  ⟨plruInit_wf d, log2_two_pow d, log2_two_pow d⟩
+
+/-- The PLRU run over any history of in-range ways never raises; the state stays well formed
+    (depth `d`, associativity `2^d`, bit list of length `2^d - 1`). -/
+theorem plru_run_wf (d : Nat) (h : List Nat) (hh : ∀ x ∈ h, x < 2 ^ d) :
+    ∃ p, plruRun d h = some p ∧ PlruWF d p ∧ p.tree.length = 2 ^ d - 1 := by
+  obtain ⟨p, h1, h2⟩ := plruRunFrom_wf (plruInit_wf d) h hh
+  exact ⟨p, h1, h2, h2.2.2⟩
+
+/-- Tree abstraction, victim: `get_next_to_replace` never raises and returns the leaf reached by
+    following the tree bits from the root; it is a way of the set. -/
+theorem plru_victim_follows_tree (d : Nat) (p : Plru) (hp : PlruWF d p) :
+    plruVictim p = some (victimT (absTree d p)) ∧ victimT (absTree d p) < 2 ^ d :=
+  ⟨plruVictim_eq hp, victimT_lt _⟩
+
+/-- Tree abstraction, access: the bottom-up loop of `access` never raises on an in-range way, keeps
+    the state well formed, and on the abstract tree is the top-down recursion `accessT`; afterwards
+    every bit on the root-to-leaf path of the accessed way points away from it. -/
+theorem plru_access_refines_tree (d : Nat) (p : Plru) (i : Nat) (hp : PlruWF d p) (hi : i < 2 ^ d) :
+    ∃ p', plruAccess p i = some p' ∧ PlruWF d p' ∧
+      absTree d p' = accessT (absTree d p) i ∧ pointsAway (absTree d p') i := by
+  have ha := plruAccess_eq hp hi
+  have habs := absTree_plruAccess hp hi ha
+  exact ⟨_, ha, plruAccess_wf hp hi ha, habs, habs ▸ pointsAway_accessT _ _⟩
+
+/-- Every bit that is not on the root-to-leaf path of the accessed way is unchanged by `access`
+    (heap-array level; `path d i` lists the heap indices of the path's inner nodes). -/
+theorem plru_access_frame (d : Nat) (p p' : Plru) (i n : Nat) (hp : PlruWF d p) (hi : i < 2 ^ d)
+    (h : plruAccess p i = some p') (hn : n ∉ path d i) : p'.tree[n]? = p.tree[n]? := by
+  rw [plruAccess_eq hp hi] at h
+  cases h
+  exact accessTD_getElem?_of_not_path hn
+
+/-- The `path` of the frame theorem is exactly the set of nodes the loop of `access` assigns: with
+    1-based heap indices the loop variable starts at `index + assoc = 2^d + i` and is halved once per
+    iteration, `d` times; the nodes written are `(2^d + i) / 2^m - 1` for `m = 1 … d`. -/
+theorem plru_path_is_loop_path (d i n : Nat) (hi : i < 2 ^ d) :
+    n ∈ path d i ↔ ∃ m, 1 ≤ m ∧ m ≤ d ∧ n + 1 = (2 ^ d + i) / 2 ^ m :=
+  mem_path_iff d i n hi
+
+/-- For `d ≥ 1` the way just accessed is never the next victim. -/
+theorem plru_victim_ne_accessed (d : Nat) (p p' : Plru) (i : Nat) (hd : 0 < d) (hp : PlruWF d p)
+    (hi : i < 2 ^ d) (h : plruAccess p i = some p') :
+    ∃ v, plruVictim p' = some v ∧ v < 2 ^ d ∧ v ≠ i := by
+  have hw' := plruAccess_wf hp hi h
+  refine ⟨_, plruVictim_eq hw', victimT_lt _, ?_⟩
+  rw [absTree_plruAccess hp hi h]
+  exact victimT_accessT_ne hd _ i
+
+/-- Accessing the same block twice in a row leaves the PLRU state unchanged. -/
+theorem plru_access_idem (d : Nat) (p p' : Plru) (i : Nat) (hp : PlruWF d p) (hi : i < 2 ^ d)
+    (h : plruAccess p i = some p') : plruAccess p' i = some p' := by
+  have hw' := plruAccess_wf hp hi h
+  rw [plruAccess_eq hp hi] at h
+  cases h
+  rw [plruAccess_eq hw' hi]
+  simp only [accessTD_idem]
+
+/-- Run form of idempotence: a history ending in `i, i` leaves the same state as the history ending
+    in a single `i` (and neither run raises). -/
+theorem plru_access_idem_run (d : Nat) (h : List Nat) (i : Nat)
+    (hh : ∀ x ∈ h, x < 2 ^ d) (hi : i < 2 ^ d) :
+    plruRun d (h ++ [i] ++ [i]) = plruRun d (h ++ [i]) ∧ (plruRun d (h ++ [i])).isSome := by
+  obtain ⟨p0, h0, hw0⟩ := plruRunFrom_wf (plruInit_wf d) h hh
+  have ha := plruAccess_eq hw0 hi
+  have hw1 := plruAccess_wf hw0 hi ha
+  have h1 : plruRun d (h ++ [i]) = some { p0 with tree := accessTD d 0 i p0.tree } := by
+    unfold plruRun
+    rw [plruRunFrom_snoc, h0]; simpa using ha
+  refine ⟨?_, by simp [h1]⟩
+  unfold plruRun at h1 ⊢
+  rw [plruRunFrom_snoc, h1]
+  simp only [Option.bind_some]
+  rw [plruAccess_eq hw1 hi]
+  simp only [accessTD_idem]
+
+/-- Non-vacuity: an 8-way PLRU after a concrete history; access of way 5 and the next victim. -/
+example : (∀ x ∈ [5, 0, 6], x < 2 ^ 3) ∧ PlruWF 3 (plruInit (2 ^ 3)) ∧
+    (plruRun 3 [5, 0, 6]).map (·.tree) = some [false, true, false, true, false, false, true] ∧
+    (plruRun 3 [5, 0, 6]).bind plruVictim = some 2 ∧
+    path 3 5 = [0, 2, 5] := by decide
+
+/-- Non-vacuity for the single-step theorems: a well-formed non-initial state, an in-range way, a
+    successful access that changes the state, and the resulting victim. -/
+example :
+    let p : Plru := ⟨8, 3, [false, true, false, true, false, false, true]⟩
+    let p' : Plru := ⟨8, 3, [true, true, false, false, false, false, true]⟩
+    PlruWF 3 p ∧ 1 < 2 ^ 3 ∧ plruAccess p 1 = some p' ∧ p' ≠ p ∧ plruVictim p' = some 4 ∧
+      1 ∉ path 3 5 := by decide
+
+/-! ## The policy as the cache uses it (`Pol`) -/
+
+/-- Every policy the cache constructs is well formed (PLRU needs a power-of-two associativity, as
+    its constructor asserts). -/
+theorem pol_init_wf (isLru : Bool) (assoc : Nat) (h : isLru = false → ∃ d, assoc = 2 ^ d) :
+    Pol.WF assoc (Pol.init isLru assoc) :=
+  Pol.WF_init isLru assoc h
+
+/-- On a well-formed policy state, `access` with an in-range way never raises and keeps the state
+    well formed. -/
+theorem pol_access_total (assoc : Nat) (p : Pol) (i : Nat) (hp : Pol.WF assoc p) (hi : i < assoc) :
+    ∃ p', p.access i = some p' ∧ Pol.WF assoc p' :=
+  hp.access hi
+
+/-- On a well-formed policy state of a non-empty set, `victim` never raises and is a way of the set. -/
+theorem pol_victim_total (assoc : Nat) (p : Pol) (hp : Pol.WF assoc p) (ha : 0 < assoc) :
+    ∃ v, p.victim = some v ∧ v < assoc :=
+  hp.victim ha
+
+/-- Accessing the same block twice in a row leaves the policy state unchanged (LRU and PLRU). -/
+theorem pol_access_idem (assoc : Nat) (p p' : Pol) (i : Nat) (hp : Pol.WF assoc p)
+    (h : p.access i = some p') : p'.access i = some p' :=
+  hp.access_idem h
+
+/-- For associativity ≥ 2 the way just accessed is never the next victim (LRU and PLRU). -/
+theorem pol_victim_ne_accessed (assoc : Nat) (p p' : Pol) (i : Nat) (hp : Pol.WF assoc p)
+    (ha : 2 ≤ assoc) (hi : i < assoc) (h : p.access i = some p') : p'.victim ≠ some i :=
+  hp.victim_access_ne ha hi h
+
+/-- Non-vacuity: both constructors give well-formed states; an access and a victim. -/
+example : Pol.WF 4 (Pol.init true 4) ∧ Pol.WF 4 (Pol.init false 4) ∧
+    ((Pol.init false 4).access 1).bind Pol.victim = some 2 ∧
+    ((Pol.init true 4).access 0).bind Pol.victim = some 1 := by decide
 
 end ArchSim.Props.C10
